@@ -61,7 +61,7 @@ ODD = [
     'corrupt-gz-unregistered', 'empty-gz', 'long-name', 'manifest-is-dir',
     'aux-outside-files', 'dist-with-slash-escaped', 'timestamp-year-0',
     'negative-size', 'size-mismatch-zero', 'ignore-and-data',
-    'misc-vs-data-dup', 'manifest-self-reference', 'manifest-cycle',
+    'misc-vs-data-dup', 'manifest-self-reference',
     'bz2-garbage', 'xz-truncated', 'entry-dotdot', 'top-symlink-loop',
 ]
 
@@ -292,6 +292,30 @@ def build(desc, root):
     return hints
 
 
+def dual_listed(root):
+    """Paths that some Manifest lists with a MANIFEST entry and some
+    Manifest lists with a DATA-like entry (input class of a recorded
+    finding)."""
+    man, dat = set(), set()
+    for dirpath, dirnames, filenames in os.walk(root):
+        for fn in filenames:
+            if not fn.startswith('Manifest'):
+                continue
+            rel = os.path.relpath(os.path.join(dirpath, fn), root)
+            try:
+                entries = R.parse_strict(R.read_manifest_file(
+                    os.path.join(root, rel)))
+            except Exception:
+                continue
+            d = os.path.dirname(rel)
+            for e in entries:
+                if e.tag == 'MANIFEST':
+                    man.add(os.path.normpath(os.path.join(d, e.path)))
+                elif e.tag in ('DATA', 'MISC', 'EBUILD', 'AUX'):
+                    dat.add(os.path.normpath(os.path.join(d, e.path)))
+    return man & dat
+
+
 def genuinely_os(exc, root):
     return (isinstance(exc, OSError) and exc.errno is not None)
 
@@ -341,6 +365,7 @@ def run_case(desc):
             if desc['kind'] == 'repo' and ci == 1:
                 repogen.apply_edits(root, desc['edits'])
             classes.append('cmd:' + c['cmd'])
+            dual = dual_listed(root)
             oc, records, out = gem.cli(argv)
             short = ' '.join(a if not a.startswith(root) else
                              '<tree>' + a[len(root):] for a in argv)
@@ -371,6 +396,12 @@ def run_case(desc):
                 continue
             sig = buckets.signature(oc.exc).replace('exc:', '')
             msg = str(oc.exc)
+            if sig == 'AssertionError:save_manifests' and msg.startswith(
+                    'Unlinked but updated Manifests'):
+                import re
+                names = set(re.findall(r"'([^']*)'", msg))
+                if names and names <= dual:
+                    sig += ':path-listed-as-manifest-and-as-file'
             # input-class predicates of the recorded findings
             if (sig == 'AssertionError:update_entries_for_directory'
                     and profile == 'old-ebuild' and not msg):
@@ -395,9 +426,25 @@ def run_case(desc):
         harness.rmtree(root)
 
 
+_home = {}
+
+
+def prepare(tier):
+    # -s/-S make gemato call gpg: give it an empty scratch keyring
+    import gpgfix
+    if gpgfix.have_gpg():
+        _home['h'] = gpgfix.GpgHome()
+        os.environ['GNUPGHOME'] = _home['h'].home
+
+
+def worker_cleanup():
+    if 'h' in _home:
+        _home['h'].close()
+
+
 PARTS = [
-    Part('commands', run_case, strategy=strat,
-         examples={'quick': 6000, 'thorough': 200000},
+    Part('commands', run_case, strategy=strat, prepare=prepare,
+         examples={'quick': 30000, 'thorough': 400000},
          budget={'quick': 70, 'thorough': 1200}),
 ]
 
